@@ -41,6 +41,11 @@ def run_hostile(pid, tier, seed, level_rule):
                         last.append(json.loads(lines[-1]))
                     except Exception:
                         pass
+            # a kill from outside (SIGKILL: the kernel's out-of-memory killer, an operator) is not the program's doing, and a
+            # crash that the identical, deterministic re-run does not repeat is not evidence about the code either
+            if str(r["crashed"]) in ("-9", "timeout") or "crashed" not in r2:
+                raise ToolError(f"{stage} fuzz process ended with rc={r['crashed']} and the journalled re-run "
+                                f"{'also ended with rc=' + str(r2.get('crashed')) if 'crashed' in r2 else 'completed'}: not attributable to a case")
             v.add(f"process crash during {stage} fuzz (rc={r['crashed']})",
                   {"kind": "process-crash", "stage": stage, "rc": str(r["crashed"]), "last_cases_per_thread": last[:16],
                    "output": r.get("output", "")[-2000:]})
@@ -48,7 +53,7 @@ def run_hostile(pid, tier, seed, level_rule):
         v.add_report(r, stage)
         reps.append(r)
         # validate (a bounded prefix of) the recorded executions
-        cap = 1_500_000 if quick else 6_000_000
+        cap = 1_500_000 if quick else 60_000_000
         lines = 0
         with open(tf) as f, open(tf + ".v", "w") as o:
             run = []
